@@ -127,7 +127,7 @@ Definition cpp_rules : list (akind * string * option wstep) :=
     (KCall, "{{ reference }}.push_back(std::move({{ <tmp> }}));", None);
     (KCall, "{{ typename_unsigned_length }} {{ <size_bytes> }} = in_buffer.size() / 8U;", Some WRest);
     (KMacro, "_deserialize_integer(t.delimiter_header_type, <size_bytes>, offset)", Some WHdrRead);
-    (KGuard, "if (({{ <size_bytes> }} * 8U) > in_buffer.size())", Some WHdrCheck);
+    (KGuard, "if ({{ <size_bytes> }} > (in_buffer.size() / 8U))", Some WHdrCheck);
     (KReturn, "return -nunavut::support::Error::RepresentationBadDelimiterHeader;", Some WBadHdr);
     (KStore, "const {{ typename_unsigned_length }} {{ <dh> }} = {{ <size_bytes> }};", Some WHdrKeep);
     (KCall, "const auto {{ <err> }} = deserialize({{ reference }}, in_buffer.subspan_bytes({{ <dh> }}));", Some WNested);
